@@ -103,13 +103,18 @@ func pickProto(r *hlib.Rand, v6 bool) int {
 	return hlib.Pick(r, termProtos...)
 }
 
-// V4 builds an IPv4 packet. payloadOverride (if non-nil) replaces the generated upper layer.
-func V4(r *hlib.Rand) ([]byte, Meta) {
+// V4 builds an IPv4 packet.
+func V4(r *hlib.Rand) ([]byte, Meta) { return V4P(r, -1) }
+
+// V4P is V4 with a chosen protocol (-1: drawn).
+func V4P(r *hlib.Rand, proto int) ([]byte, Meta) {
 	ihl := 5
 	if r.Chance(1, 3) {
 		ihl = r.Range(6, 15)
 	}
-	proto := pickProto(r, false)
+	if proto < 0 {
+		proto = pickProto(r, false)
+	}
 	up := Upper(r, proto, false)
 	b := make([]byte, ihl*4+len(up))
 	b[0] = 0x40 | byte(ihl)
@@ -167,8 +172,13 @@ func NExtPick(r *hlib.Rand) int {
 }
 
 // V6 builds an IPv6 packet with nExt extension headers. extBounds receives the offset of each header.
-func V6(r *hlib.Rand, nExt int) ([]byte, Meta, []int) {
-	proto := pickProto(r, true)
+func V6(r *hlib.Rand, nExt int) ([]byte, Meta, []int) { return V6P(r, nExt, -1) }
+
+// V6P is V6 with a chosen upper-layer protocol (-1: drawn).
+func V6P(r *hlib.Rand, nExt int, proto int) ([]byte, Meta, []int) {
+	if proto < 0 {
+		proto = pickProto(r, true)
+	}
 	for proto == 0 || proto == 43 || proto == 60 || proto == 44 || proto == 51 {
 		proto = pickProto(r, true)
 	}
